@@ -298,9 +298,12 @@ func (vc *VC) paramLookup(fr *frame, name string) (Val, bool) {
 		}
 	}
 	for i, fv := range fr.fn.FreeVars {
-		if fv.Name() == name {
-			// free variables are pointers to the captured variable
-			_ = i
+		if fv.Name() == name && i < len(fr.freeVars) && fr.entrySt != nil {
+			// free variables are pointers to the captured variable: a name in a contract denotes the
+			// variable's value when the closure is entered
+			if pt, ok := fv.Type().Underlying().(*types.Pointer); ok && isCellType(pt.Elem()) {
+				return Val{T: vc.load(fr.entrySt, fr.freeVars[i].T, pt.Elem()), Typ: pt.Elem()}, true
+			}
 		}
 	}
 	return Val{}, false
